@@ -301,6 +301,12 @@ func (r *Run) Exec(i int) *OpResult {
 			res.Info = &InfoObs{Touched: info.ID != infoSentinel || info.Inputs != nil || info.Outputs != nil,
 				ID: int(info.ID), Inputs: inputsStr(info.Inputs), Outputs: outputsStr(info.Outputs)}
 		}
+		if err == nil && !facts.Escaped {
+			if w.HomeOf == nil {
+				w.HomeOf = map[int]int{}
+			}
+			w.HomeOf[f.ID] = op.Scope
+		}
 	case OpInvoke:
 		f := &r.H.Funcs[op.Fn]
 		var info *dig.InvokeInfo
